@@ -76,6 +76,27 @@ def run_client_session(ctx):
     ctx.cov["transitions"] += r.generated
 
 
+def run_registry(ctx):
+    """Registry.tla: registration words on a real dispatcher, resolution order and system.listMethods after every step."""
+    ctx.model("Registry", "Registry.cfg", workers=4, timeout=300)
+    tf = ctx.path("growth_registry.json")
+    common.run_py(os.path.join(VERIF, "harness", "registry_run.py"), ["run", tf, ctx.seed, 150 if ctx.tier == "quick" else 3000])
+    r = common.tlc("RegistryTrace", "RegistryTrace.cfg", env={"TRACE_FILE": tf}, workers=1, timeout=900)
+    if r.errors or not r.finished:
+        raise common.MachineryError("RegistryTrace did not complete:\n" + "\n".join(r.errors)[:1500])
+    traces = json.load(open(tf))
+    bad = {}
+    for m in re.finditer(r'<<"GROWTHFAIL", (\d+), "(\w+)", (\d+)>>', r.out):
+        bad.setdefault(int(m.group(1)), int(m.group(3)))
+    for t, l in list(bad.items())[:5]:
+        e = traces[t - 1]["ev"][l - 1]
+        print("GROWTH-FINDING (not a listed property): Registry.tla does not explain the dispatcher after operation %d (%s) of a recorded word: "
+              "probe %s listed %s" % (l, e["op"], json.dumps(e["probe"]), json.dumps(e["listed"])))
+    ctx.cov.setdefault("growth", {})["registry"] = {"words": len(traces), "operations": sum(len(t["ev"]) for t in traces),
+                                                   "mismatching_words": len(bad), "trace_states": r.distinct}
+    ctx.cov["transitions"] += r.generated
+
+
 def safely(ctx, fn):
     """Growth runs never decide a listed property: a failure of theirs is reported, it does not change the verdict."""
     try:
